@@ -73,7 +73,7 @@ func ruleSUB1(p *Program) *RuleResult {
 	if err != nil {
 		return r.anchorFail(err)
 	}
-	abc := "ABCDE"
+	abc := "ABCDEFGH"
 	for _, fnName := range []string{"First", "Last", "Tail", "Skip", "Take"} {
 		fn, err := p.Func("fhirpath/internal/funcs/impl", fnName)
 		if err != nil {
@@ -90,7 +90,11 @@ func ruleSUB1(p *Program) *RuleResult {
 			r.undecided("impl."+fnName+"|shape", "args[0].Evaluate call not found", p.pos(fn.Pos()), "unsupported shape")
 			continue
 		}
-		for size := 0; size <= 4; size++ {
+		maxSize := 4
+		if thoroughTier {
+			maxSize = 7
+		}
+		for size := 0; size <= maxSize; size++ {
 			in := abc[:size]
 			ns := []int{0}
 			if needsArg {
